@@ -7,6 +7,8 @@
 #include <csignal>
 #include <deque>
 #include <sys/resource.h>
+#include <sys/time.h>
+#include <time.h>
 #include <sys/types.h>
 #include <sys/wait.h>
 
@@ -14,13 +16,14 @@
 #include "CppUTest/TestRegistry.h"
 #include "CppUTest/TestOutput.h"
 #include "CppUTest/TestPlugin.h"
+#include "CppUTest/TestFailure.h"
 #include "CppUTest/PlatformSpecificFunctions.h"
 
 // ------------------------------------------------------------------ what a test does
 enum Where { W_CTOR, W_SETUP, W_BODY, W_TEARDOWN, W_DTOR, W_PRE, W_POST, W_N };
 static const char* WHERE[] = { "constructor", "setup", "body", "teardown", "destructor", "plugin-pre", "plugin-post" };
-enum Act { A_NONE, A_RAISE, A_EXIT, A_UEXIT, A_FAILCHECK, A_ABORT, A_SEGV, A_STOPS, A_PLUGIN_REPORTS };
-static const char* ACT[] = { "none", "raise", "exit", "_exit", "failing-check", "abort", "null-write", "raise-SIGSTOP", "plugin-reports-failure" };
+enum Act { A_NONE, A_RAISE, A_EXIT, A_UEXIT, A_FAILCHECK, A_ABORT, A_SEGV, A_STOPS, A_PLUGIN_REPORTS, A_MANY_FAILURES, A_SLEEP_MS };
+static const char* ACT[] = { "none", "raise", "exit", "_exit", "failing-check", "abort", "null-write", "raise-SIGSTOP", "plugin-reports-failure", "many-non-terminating-failures", "sleep-ms" };
 struct Plan { int act = A_NONE; int where = W_BODY; int arg = 0; int after = A_NONE; int after_arg = 0; };   // `after`: what follows k stops
 
 static void perform(int act, int arg) {
@@ -31,6 +34,8 @@ static void perform(int act, int arg) {
     case A_FAILCHECK: FAIL("scripted failure"); break;
     case A_ABORT: abort(); break;
     case A_SEGV: { volatile int* p = nullptr; *p = 1; break; }
+    case A_SLEEP_MS: { struct timespec t0, t; clock_gettime(CLOCK_MONOTONIC, &t0); for (;;) { struct timespec d = { 0, 5000000 }; nanosleep(&d, nullptr); clock_gettime(CLOCK_MONOTONIC, &t); if ((t.tv_sec - t0.tv_sec) * 1000 + (t.tv_nsec - t0.tv_nsec) / 1000000 >= arg) break; } break; }
+    case A_MANY_FAILURES: { UtestShell* sh = UtestShell::getCurrent(); for (int i = 0; i < arg; i++) sh->addFailure(TestFailure(sh, SimpleString("one of many"))); break; }   // the test goes on and ends normally
     default: break;
     }
 }
@@ -177,10 +182,12 @@ static int expected_from_intent(const Plan& p) {
     };
     switch (p.act) {
     case A_NONE: return 0;
+    case A_SLEEP_MS: return -1;
     case A_RAISE: return sig_effect(p.arg);
     case A_UEXIT: return p.arg != 0;
     case A_EXIT: return p.arg != 0 ? 1 : -1;            // exit(0) runs exit handlers, which may themselves die
     case A_FAILCHECK: case A_ABORT: case A_SEGV: case A_PLUGIN_REPORTS: return 1;
+    case A_MANY_FAILURES: return p.arg > 0;          // however many checks failed in the child: the test is recorded as failed (once)
     case A_STOPS: {
         int after;
         switch (p.after) { case A_NONE: after = 0; break; case A_FAILCHECK: after = 1; break; case A_RAISE: after = sig_effect(p.after_arg); break; case A_UEXIT: after = p.after_arg != 0; break; default: after = -1; }
@@ -278,7 +285,8 @@ static void sec_misc(vf::Ctx& c) {
     std::string sig;
     for (int i = 0; i < ntests; i++) {
         Plan p; p.where = (int) c.rng.below(W_N);
-        switch (c.rng.below(8)) {
+        switch (c.rng.below(9)) {
+        case 8: { static const int N[] = { 2, 3, 127, 128, 255, 256, 257, 511, 512, 768, 1024 }; p.act = A_MANY_FAILURES; p.arg = N[c.rng.below(11)]; p.where = W_SETUP + (int) c.rng.below(3); break; }
         case 7: p.act = A_PLUGIN_REPORTS; p.where = c.rng.chance(50) ? W_PRE : W_POST; break;
         case 0: p.act = A_FAILCHECK; if (p.where == W_CTOR || p.where == W_DTOR) p.where = W_BODY; break;
         case 1: p.act = A_ABORT; break;
@@ -296,6 +304,82 @@ static void sec_misc(vf::Ctx& c) {
     c.begin([=] { return vf::J().raw("plans", plans_json(plans)).str(); });
     judge_real(c, plans, "mixed");
     c.nontrivial(sig);
+}
+
+static int learn_eintr_bound(int& failures_at_giveup);
+
+// ---- section: REAL interrupted waits. The parent gets a SIGALRM every few milliseconds from an interval timer whose
+// handler is installed without SA_RESTART while the child sleeps, so the real waitpid() really returns EINTR.
+// Whatever implements the wait below the PlatformSpecificWaitPid seam must hand these interruptions to the bounded
+// retry logic: either EINTR results are visible at the seam (and the test gives up after the bound with one failure),
+// or the child was simply faster. What must not happen: dozens of interruptions and no EINTR ever seen, no give-up.
+static volatile sig_atomic_t g_alarms;
+static void on_alarm(int) { g_alarms++; }
+static int g_storm_interval_us; static int g_storm_child = -1; static long g_alarms_at_first_end = -1;
+static int storm_fork() {
+    g_wait_mark.push_back(g_waits.size()); g_forks++;
+    int pid = real_fork();
+    if (pid > 0 && g_storm_child < 0) {
+        g_storm_child = pid;
+        struct itimerval it; it.it_interval.tv_sec = 0; it.it_interval.tv_usec = g_storm_interval_us; it.it_value = it.it_interval;
+        setitimer(ITIMER_REAL, &it, nullptr);
+    }
+    return pid;
+}
+class StormOutput : public StringBufferTestOutput {
+public:
+    std::vector<size_t> failures_at_end;
+    void printCurrentTestEnded(const TestResult& res) CPPUTEST_OVERRIDE {
+        if (failures_at_end.empty()) { struct itimerval off; memset(&off, 0, sizeof off); setitimer(ITIMER_REAL, &off, nullptr); g_alarms_at_first_end = g_alarms; }
+        failures_at_end.push_back(res.getFailureCount());
+    }
+};
+static void sec_real_eintr(vf::Ctx& c) {
+    int child_ms = c.rng.range(400, 700); g_storm_interval_us = c.rng.range(1000, 3000); int followers = c.rng.range(0, 2);
+    bool child_fails = false;
+    c.begin([=] { return vf::J().k("child_sleeps_ms", child_ms).k("sigalrm_interval_us", g_storm_interval_us).k("followers", followers).str(); });
+    int giveup_failures = 0;
+    int k0 = learn_eintr_bound(giveup_failures);
+    if (k0 < 1) { c.violation("eintr-retry-unbounded", "waitpid() returning EINTR was retried more than 1000 times"); return; }
+    std::vector<Plan> plans((size_t) (1 + followers));
+    plans[0] = Plan(); plans[0].act = A_SLEEP_MS; plans[0].arg = child_ms; plans[0].where = W_BODY;
+    std::map<const UtestShell*, Plan> pm; g_plans = &pm;
+    std::vector<PlanShell*> shells; std::deque<std::string> names;
+    TestRegistry reg; reg.setCurrentRegistry(&reg);
+    for (size_t i = plans.size(); i-- > 0;) { names.push_back("t" + std::to_string(i)); PlanShell* sh = new PlanShell("G", names.back().c_str()); pm[sh] = plans[i]; shells.push_back(sh); reg.addTest(sh); }
+    reg.setRunTestsInSeperateProcess();
+    g_waits.clear(); g_wait_mark.clear(); g_forks = 0; g_alarms = 0; g_storm_child = -1; g_alarms_at_first_end = -1;
+    struct sigaction sa, old; memset(&sa, 0, sizeof sa); sa.sa_handler = on_alarm; sa.sa_flags = 0; sigaction(SIGALRM, &sa, &old);
+    real_fork = PlatformSpecificFork; real_waitpid = PlatformSpecificWaitPid;
+    PlatformSpecificFork = storm_fork; PlatformSpecificWaitPid = rec_waitpid;
+    size_t first_delta = 0, ended = 0;
+    {
+        StormOutput out; TestResult res(out);
+        reg.runAllTests(res);
+        ended = out.failures_at_end.size();
+        if (!out.failures_at_end.empty()) first_delta = out.failures_at_end[0];
+    }
+    { struct itimerval off; memset(&off, 0, sizeof off); setitimer(ITIMER_REAL, &off, nullptr); }
+    PlatformSpecificFork = real_fork; PlatformSpecificWaitPid = real_waitpid;
+    sigaction(SIGALRM, &old, nullptr);
+    if (g_storm_child > 0) { kill(g_storm_child, SIGKILL); int st; while (waitpid(g_storm_child, &st, 0) < 0 && errno == EINTR) {} }     // the parent may have given up on it
+    reg.setCurrentRegistry(NULLPTR);
+    for (PlanShell* sh : shells) delete sh;
+    g_plans = nullptr;
+    // what the seam saw for the first test
+    size_t from = g_wait_mark.empty() ? 0 : g_wait_mark[0], to = g_wait_mark.size() > 1 ? g_wait_mark[1] : g_waits.size();
+    long eintr_seen = 0; bool final_status = false;
+    for (size_t i = from; i < to; i++) { if (g_waits[i].ret < 0 && g_waits[i].err == EINTR) eintr_seen++; else if (g_waits[i].ret > 0) final_status = true; }
+    long alarms = g_alarms_at_first_end >= 0 ? g_alarms_at_first_end : (long) g_alarms;
+    c.count("real_eintr_results_seen_at_the_seam", (uint64_t) eintr_seen); c.count("real_sigalrm_deliveries_during_the_wait", (uint64_t) alarms);
+    if (ended != plans.size()) c.violation("later-tests-not-run:real-eintr", "tests=" + std::to_string(plans.size()) + " ended=" + std::to_string(ended));
+    if (eintr_seen >= k0) {           // the bounded retry logic must have given up: exactly one failure, no status decoded
+        c.count("real_eintr_giveups");
+        if (first_delta != 1) c.violation("eintr-giveup-not-one-failure:real", std::to_string(eintr_seen) + " real EINTR results (bound " + std::to_string(k0) + ") but the test got " + std::to_string(first_delta) + " failure(s)");
+    } else if (eintr_seen == 0 && alarms >= k0 + 20 && final_status) {
+        c.violation("real-eintr-swallowed-below-the-wait-seam", std::to_string(alarms) + " SIGALRM deliveries (handler without SA_RESTART) interrupted the parent while it waited, yet no EINTR reached the bounded retry logic and the wait went on until the child ended: interrupted waits are retried without bound");
+    } else c.count("real_eintr_child_finished_before_the_bound");
+    c.nontrivial("storm" + std::to_string(child_ms) + ":" + std::to_string(g_storm_interval_us) + ":" + std::to_string(followers));
 }
 
 // ---- scripted fork/waitpid
@@ -451,6 +535,7 @@ int main(int argc, char** argv) {
         { "real_signals_x_crashpoints", 31 * W_N, 31 * W_N, sec_signals, true },
         { "real_exit_statuses", 40, 512, sec_exit, false },
         { "real_checks_crashes_stops", 150, 3000, sec_misc, false },
+        { "real_eintr_storm", 8, 60, sec_real_eintr, false },
         { "scripted_eintr_runs", 41 * 5, 41 * 5, sec_eintr, true },
         { "scripted_fork_wait_sequences", 2000, 50000, sec_scripts, false },
     };
